@@ -3,11 +3,15 @@ package main
 import (
 	"bufio"
 	"bytes"
+	"context"
 	"errors"
 	"fmt"
 	"io"
+	"io/fs"
+	"net"
 	"os"
 	"strings"
+	"syscall"
 	"unicode/utf8"
 
 	"verif/simrt"
@@ -31,8 +35,55 @@ type wrapsEOF struct{}
 func (wrapsEOF) Error() string { return "simreader: wrapped end of stream" }
 func (wrapsEOF) Unwrap() error { return io.EOF }
 
+// tempErr is what a net.Error / EINTR-style failure looks like to a callee
+// that probes for behaviour instead of comparing values.
+type tempErr struct{}
+
+func (tempErr) Error() string   { return "simreader: injected temporary failure" }
+func (tempErr) Timeout() bool   { return true }
+func (tempErr) Temporary() bool { return true }
+
+// sliceErr is an error of a NON-COMPARABLE dynamic type (== on two such values
+// panics); identity goes through its Is method.
+type sliceErr struct{ tag []string }
+
+func (e sliceErr) Error() string { return "simreader: injected failure of a non-comparable type" }
+func (e sliceErr) Is(t error) bool {
+	o, ok := t.(sliceErr)
+	return ok && len(o.tag) > 0 && len(e.tag) > 0 && &o.tag[0] == &e.tag[0]
+}
+
+var (
+	errPathEIO       = &fs.PathError{Op: "read", Path: "/sim/stream", Err: syscall.EIO}
+	errNonComparable = sliceErr{tag: []string{"x"}}
+)
+
 func faultErr(kind string) error {
 	switch kind {
+	case "eintr":
+		return syscall.EINTR
+	case "eagain":
+		return syscall.EAGAIN
+	case "deadline":
+		return os.ErrDeadlineExceeded
+	case "patherror-eio":
+		return errPathEIO
+	case "timeout-temporary":
+		return tempErr{}
+	case "closed-pipe":
+		return io.ErrClosedPipe
+	case "fs-closed":
+		return fs.ErrClosed
+	case "net-closed":
+		return net.ErrClosed
+	case "no-progress":
+		return io.ErrNoProgress
+	case "short-buffer":
+		return io.ErrShortBuffer
+	case "ctx-canceled":
+		return context.Canceled
+	case "noncomparable":
+		return errNonComparable
 	case "sentinel":
 		return errSentinel
 	case "unexpected-eof":
@@ -81,7 +132,8 @@ type SimReader struct {
 	Reused       bool          // the caller reused the reader's storage after the parse
 	FileFallback bool          // no temp file could be created; a bytes.Reader stood in
 
-	onRead func() // called at the start of every Read (a reader that re-enters the library)
+	growW  *os.File // Std == "os.File-grown": the handle the content arrives through after construction
+	onRead func()   // called at the start of every Read (a reader that re-enters the library)
 }
 
 func newSimReader(doc []byte, scn *ReaderScn, seq *int) *SimReader {
@@ -262,6 +314,44 @@ func (r *SimReader) asReader() io.Reader {
 	case "strings.Reader":
 		r.pos = r.limit
 		return strings.NewReader(string(r.doc[:r.limit]))
+	case "os.Pipe":
+		// a pipe: stat size 0, Seek fails, reads return what is buffered.  The
+		// whole stream is written before the parse starts and the write end is
+		// closed, so what each Read returns is still a function of the scenario.
+		if r.limit <= 32<<10 {
+			if pr, pw, err := os.Pipe(); err == nil {
+				_, werr := pw.Write(r.doc[:r.limit])
+				pw.Close()
+				if werr == nil {
+					r.pos = r.limit
+					r.stdFile = pr
+					return pr
+				}
+				pr.Close()
+			}
+		}
+		r.FileFallback = true
+		r.pos = r.limit
+		return bytes.NewReader(append([]byte(nil), r.doc[:r.limit]...))
+	case "os.File-grown":
+		// a regular file that is still EMPTY when NewBlockParser is handed it
+		// and gets its content (through another handle) before the first
+		// NextBlock: a size taken at construction is stale
+		f, err := os.CreateTemp(os.Getenv("VERIF_SCRATCH_DIR"), "simgrow")
+		if err == nil {
+			w, werr := os.OpenFile(f.Name(), os.O_WRONLY, 0)
+			os.Remove(f.Name())
+			if werr == nil {
+				r.pos = r.limit
+				r.stdFile = f
+				r.growW = w
+				return f
+			}
+			f.Close()
+		}
+		r.FileFallback = true
+		r.pos = r.limit
+		return bytes.NewReader(append([]byte(nil), r.doc[:r.limit]...))
 	case "section-advanced", "bytes.Reader-advanced", "os.File":
 		// a reader with a POSITION: the caller has already consumed k bytes
 		// (front matter, an earlier document in the same file); the input is
@@ -315,6 +405,15 @@ func (r *SimReader) asReader() io.Reader {
 		return richReader{r}
 	}
 	return r
+}
+
+// afterConstruct runs between NewBlockParser and the first NextBlock.
+func (r *SimReader) afterConstruct() {
+	if r.growW != nil {
+		r.growW.Write(r.doc[:r.limit])
+		r.growW.Close()
+		r.growW = nil
+	}
 }
 
 // reuse: the parse is over; the caller does what it likes with what it owns.
@@ -513,7 +612,12 @@ func cutsToOps(cuts []int, limit int) []int {
 	return ops
 }
 
-var faultErrKinds = []string{"sentinel", "unexpected-eof", "wraps-eof", "eof"}
+// faultErrKinds: the four original values (three times as likely each) plus
+// errors of the standard library that a callee may single out by value
+// (errors.Is against io.ErrClosedPipe, fs.ErrClosed, ...) or by BEHAVIOUR
+// (Temporary(), Timeout(): EINTR, EAGAIN, deadline) - "all error values".
+var faultErrKinds = []string{"sentinel", "unexpected-eof", "wraps-eof", "eof", "sentinel", "unexpected-eof", "wraps-eof", "eof", "sentinel", "unexpected-eof", "wraps-eof", "eof",
+	"eintr", "eagain", "deadline", "patherror-eio", "timeout-temporary", "closed-pipe", "fs-closed", "net-closed", "no-progress", "short-buffer", "ctx-canceled", "noncomparable"}
 
 // genFaultPoint picks a fault position biased to in-flight state.
 func genFaultPoint(r *Rng, doc []byte, deliveryPoints []int) int {
